@@ -1,19 +1,25 @@
 from runner import Property, Engine
 import stressgen
+import evupdgen
 
 PROP = Property(
     pid="C11",
-    properties_v=["Properties/Properties_C11.v"],
-    coq_targets=["Extract/Extract_Locks.vo"],
+    properties_v=["Properties/Properties_C11.v", "Properties/Properties_C11_evupd.v"],
+    coq_targets=["Extract/Extract_Locks.vo", "Extract/Extract_EvUpdates.vo"],
     engines=[Engine(name="tstress", c_srcs=["harness/thread_stress_drv.c"], variant="tsan",
                     ml_srcs=["ocaml/gen/LocksModel.ml", "ocaml/tstress_drv.ml"],
-                    gen=stressgen.gen, n_quick=18, n_thorough=400, sep=None, timeout=3000, search_factor=1, per_case=True)],
+                    gen=stressgen.gen, n_quick=18, n_thorough=400, sep=None, timeout=3000, search_factor=1, per_case=True),
+             Engine(name="evupd", c_srcs=["harness/evupd_drv.c"],
+                    ml_srcs=["ocaml/gen/EvUpdatesModel.ml", "ocaml/evupd_drv.ml"],
+                    gen=evupdgen.gen, n_quick=3000, n_thorough=200000, sep=";")],
     trusted_base=["Coq 8.16.1 kernel + coqc (vm_compute for the finite fact table)",
                   "gen/lockfacts.py: syntactic lock-bracket analysis of the clang AST of every public entry point (regenerated each run)",
                   "whitelists in coq/Core/LockDiscipline.v (exclusive-by-contract functions, immutable-after-init fields, stateless callees)",
                   "harness/thread_stress_drv.c + ThreadSanitizer (search for a concrete failing schedule; not a proof)",
+                  "harness/evupd_drv.c: the library's ares_event_thread.c compiled into the driver, recording event backend; ocaml/evupd_drv.ml (monitor on the implementation's trace)",
                   "extraction (ExtrOcamlBasic) + OCaml 4.13.1"],
     assumptions=["entry points are abstracted to their lock actions and channel-field accesses; races below the lock level (libc, OS, memory model) are not modelled",
-                 "real schedules are only sampled (TSan stress with optional yield hook)"],
-    rule="client threads issuing queries/searches/getaddrinfo/cancel/set-servers/reinit/save-options/get-servers/timeout against a live event thread on each backend; non-trivial = at least two requests issued; distinct by case text",
+                 "real schedules are only sampled (TSan stress with optional yield hook)",
+                 "registration model: allocation in ares_event_update and the backend's event_add are assumed to succeed; the kernel forgets a closed socket's registration (epoll/kqueue), descriptor numbers may be reused at once"],
+    rule="client threads issuing queries/searches/getaddrinfo/cancel/set-servers/reinit/save-options/get-servers/timeout against a live event thread on each backend; non-trivial = at least two requests issued; distinct by case text || event-handle registration: socket-state callbacks, raw updates and drains over a small pool of descriptor numbers (closed and reused before the drain); non-trivial = at least one drain",
 )
